@@ -603,14 +603,17 @@ class NPShim:
         return f(a, b)
 
     def allclose(self, a, b, rtol=None, atol=None, **kw):
-        r = self.isclose(a, b)
+        r = self.isclose(a, b, rtol=rtol, atol=atol)
         if is_arr(r):
             conds = [v for v in r.flat if v is not True]
             if not conds:
                 return True
             if any(v is False for v in conds):
                 return False
-            return Cond("allclose", to_obj(unwrap(a)), to_obj(unwrap(b)))
+            tol = next((getattr(v, "tol", None) for v in conds if isinstance(v, Cond)), None)
+            c = Cond("allclose", to_obj(unwrap(a)), to_obj(unwrap(b)), tol=tol)
+            c.elements = [v for v in conds if isinstance(v, Cond)]        # the element-wise tolerance tests behind the array answer
+            return c
         return r
 
     def any(self, x, axis=None):
@@ -787,6 +790,10 @@ class Interp:
         self.decisions.append((cond, v, was_generic))
         if cond.op in ("isclose", "allclose") and isinstance(cond.lhs, Rat):
             Interp.GATE_LOG.append((self.func_stack[-1].ref if self.func_stack else "?", cond.lhs, cond.rhs, getattr(cond, "tol", None) or (1e-5, 1e-8), v))
+        elif cond.op == "allclose":
+            for e_ in getattr(cond, "elements", None) or ():
+                if isinstance(e_.lhs, Rat):
+                    Interp.GATE_LOG.append((self.func_stack[-1].ref if self.func_stack else "?", e_.lhs, e_.rhs, getattr(e_, "tol", None) or (1e-5, 1e-8), v))
         return v
 
     def generic(self, cond):
